@@ -51,7 +51,7 @@ def gen_cases(rng, tier):
         options = None if k % 3 == 0 else cfgprop.gen_table(rng)
         store, defaults = cfgprop.gen_store(rng, options)
         aliasing = (k % 10 == 9)
-        c = cfgprop.gen_ops(rng, store, defaults, n_ops=rng.choice([6, 12, 25]), conf_events=False, aliasing=aliasing, options=options)
+        c = cfgprop.gen_ops(rng, store, defaults, n_ops=rng.choice([6, 12, 25]), conf_events=(k % 4 == 1), aliasing=aliasing, options=options)
         c['in_h'] = not aliasing
         yield c
 
